@@ -43,7 +43,7 @@ def apply(m, dst):
             idx = s.index(ed["find"], idx + (1 if _ else 0))
         s = s[:idx] + ed["replace"] + s[idx + len(ed["find"]):]
         open(path, "w").write(s)
-    p = subprocess.run(["go", "build", "./..."], cwd=dst, env=goenv(), stdout=subprocess.PIPE, stderr=subprocess.STDOUT, text=True)
+    p = subprocess.run(["go", "build", "./..."], cwd=dst, env=goenv(), stdout=subprocess.PIPE, stderr=subprocess.STDOUT, text=True, errors="replace")
     if p.returncode != 0:
         raise RuntimeError("mutant does not compile:\n" + p.stdout)
 
@@ -60,7 +60,7 @@ def diff_of(dst):
 
 def run_suite(dst):
     p = subprocess.run(["go", "test", "-vet=off", "-count=1", "-timeout", "25m", "./..."], cwd=dst, env=goenv(),
-                       stdout=subprocess.PIPE, stderr=subprocess.STDOUT, text=True)
+                       stdout=subprocess.PIPE, stderr=subprocess.STDOUT, text=True, errors="replace")
     return p.returncode == 0
 
 
@@ -104,7 +104,7 @@ def main(argv):
                 env["VERIF_EVIDENCE_OUT"] = os.path.join(dst, "evidence-out")
                 t0 = time.time()
                 p = subprocess.run([os.path.join(ROOT, "check"), prop, "--tier", tier], env=env, stdout=subprocess.PIPE,
-                                   stderr=subprocess.STDOUT, text=True)
+                                   stderr=subprocess.STDOUT, text=True, errors="replace")
                 dt = time.time() - t0
                 verdict = {0: "SURVIVED", 1: "DETECTED", 2: "INCONCLUSIVE"}.get(p.returncode, "rc=%d" % p.returncode)
                 detail = ""
